@@ -11,7 +11,19 @@ from typing import Any, TypeVar
 from hypergraph.nodes._rename import RenameEntry, RenameError, get_next_batch_id
 
 # Sentinel value auto-produced for emit outputs when a node runs.
-_EMIT_SENTINEL = object()
+class _EmitSentinel:
+    """Singleton marker; pickling round-trips to the same object (cached outputs on disk)."""
+
+    __slots__ = ()
+
+    def __reduce__(self) -> str:
+        return "_EMIT_SENTINEL"
+
+    def __repr__(self) -> str:
+        return "<emit>"
+
+
+_EMIT_SENTINEL = _EmitSentinel()
 
 # TypeVar for self-referential return types (Python 3.10 compatible)
 _T = TypeVar("_T", bound="HyperNode")
